@@ -663,8 +663,13 @@ func Generate(seed uint64, o GenOpts) *Scenario {
 		}
 		sc.OuterBuf = r.Intn(8) == 0
 	}
-	if r.Intn(4) == 0 || (o.Prop == "C15" && r.Intn(10) < 3) {
+	if r.Intn(4) == 0 || (o.Prop == "C15" && r.Intn(10) < 3) || (o.Prop == "C16" && r.Intn(10) < 2) {
 		sc.Graphs = 2
+	}
+	if o.Prop == "C16" && sc.Graphs == 2 && r.Intn(2) == 0 {
+		// two graphs contending for shared Tasks under tight limits: where a slot or a Task lock held
+		// at the wrong moment keeps a ready task from starting
+		sc.MaxPar, sc.Serial = 1+r.Intn(2), false
 	}
 	sc.LogErr = r.Intn(10) == 0
 
